@@ -82,32 +82,38 @@ structure Assertion where
   chal : Nat
 deriving DecidableEq, Repr
 
+/-- the auth cookies attached to one request, in order (`none` = a value that does not verify) -/
+abbrev Cookies := List (Option Cookie)
+
 inductive Op
   | login (u : User) (pwOk : Bool)
-  | vipOtp (c : Option Cookie) (owner : Option User)
-  | pushStart (c : Option Cookie) (v : Option Nat)
+  | vipOtp (cs : Cookies) (owner : Option User)
+  | pushStart (cs : Cookies) (v : Option Nat)
   | approve (tx : Nat)
-  | poll (c : Option Cookie) (v : Option Nat)
-  | totp (c : Option Cookie) (code : Option (User × Nat))
-  | bootstrap (c : Option Cookie) (owner : Option User)
-  | u2fBegin (c : Option Cookie)
-  | u2fFinish (c : Option Cookie) (a : Option Assertion)
-  | waBegin (c : Option Cookie)
-  | waFinish (c : Option Cookie) (a : Option Assertion)
-  | showToken (c : Option Cookie) (life : Nat)
-  | sendDoc (c : Option Cookie) (t : Option CliTok)
-  | logout (c : Option Cookie)
-  | oktaOtp (c : Option Cookie) (owner : Option User)
-  | oktaPushStart (c : Option Cookie)
+  | poll (cs : Cookies) (v : Option Nat)
+  | totp (cs : Cookies) (code : Option (User × Nat))
+  | bootstrap (cs : Cookies) (owner : Option User)
+  | u2fBegin (cs : Cookies)
+  | u2fFinish (cs : Cookies) (a : Option Assertion)
+  | waBegin (cs : Cookies)
+  | waFinish (cs : Cookies) (a : Option Assertion)
+  | showToken (cs : Cookies) (life : Nat)
+  | sendDoc (cs : Cookies) (t : Option CliTok)
+  | logout (cs : Cookies)
+  | oktaOtp (cs : Cookies) (owner : Option User)
+  | oktaPushStart (cs : Cookies)
   | oktaApprove (u : User)
-  | oktaPoll (c : Option Cookie)
+  | oktaPoll (cs : Cookies)
   | tick
   | sweep
+  | fault (save load : Bool)   -- world: the primary profile store starts/stops refusing writes / reads
 deriving DecidableEq, Repr
 
 structure State where
   now : Nat
   okta : Bool                          -- password backend is Okta
+  saveFails : Bool                     -- world: SaveUserProfile on the primary fails
+  loadFails : Bool                     -- world: LoadUserProfile on the primary fails
   cookies : List Cookie                -- every session cookie ever issued
   push : Nat → Option PushTx           -- vipPushCookie: cookie value ↦ transaction
   svcTx : Nat → Option (User × Bool)   -- the VIP service: transaction ↦ (user it was pushed to, approved)
@@ -156,6 +162,15 @@ def auth (s : State) : Option Cookie → Option Cookie
   | some c => if c ∈ s.cookies then some c else none
   | none => none
 
+/-- which of the attached auth cookies `checkAuth` authenticates the request with: the loop over
+`r.Cookies()` keeps the LAST one named auth_cookie -/
+def caller (cs : Cookies) : Option Cookie := cs.getLast?.join
+
+/-- which of them `updateAuthCookieAuthlevel` re-signs with the raised level: the same loop, the LAST one.
+(`c05_sites` checks on the regenerated table that both functions still pick the last cookie; the handlers
+below are therefore written over the caller's cookie.) -/
+def target (cs : Cookies) : Option Cookie := cs.getLast?.join
+
 def inWindow (now k : Nat) : Prop := now ≤ k + 1 ∧ k ≤ now + 1
 instance (now k : Nat) : Decidable (inWindow now k) := by unfold inWindow; exact inferInstance
 
@@ -174,7 +189,7 @@ def tokenRegistered (s : State) (a : Assertion) : Bool :=
 def events (s : State) : Op → List (User × Factor)
   | .login u true => [(u, .password)]
   | .vipOtp c (some o) =>
-    match auth s c with
+    match auth s (caller c) with
     | some ck => if o = ck.sub then [(o, .vip)] else []
     | none => []
   | .approve k =>
@@ -190,7 +205,7 @@ def events (s : State) : Op → List (User × Factor)
   | .waFinish _ (some a) => if tokenRegistered s a = true then [(a.owner, .hwToken)] else []
   | .sendDoc _ (some t) => if t ∈ s.toks ∧ s.now < t.expiresAt then [(t.user, .cli)] else []
   | .oktaOtp c (some o) =>
-    match auth s c with
+    match auth s (caller c) with
     | some ck => if s.okta = true ∧ s.oktaSess ck.sub = true ∧ o = ck.sub then [(o, .okta)] else []
     | none => []
   | .oktaApprove u => if s.oktaPushed u = true then [(u, .okta)] else []
@@ -201,8 +216,11 @@ abbrev Res := State × Nat × List Cookie
 
 def hLogin (s : State) (u : User) (pwOk : Bool) : Res :=
   if pwOk = true then
-    ({ s with oktaSess := if s.okta = true then upd s.oktaSess u true else s.oktaSess }, 200,
-      [⟨u, authTypePassword⟩])
+    if s.loadFails = true then   -- userHasU2FTokens cannot load the profile: 500 before any cookie is set
+      ({ s with oktaSess := if s.okta = true then upd s.oktaSess u true else s.oktaSess }, 500, [])
+    else
+      ({ s with oktaSess := if s.okta = true then upd s.oktaSess u true else s.oktaSess }, 200,
+        [⟨u, authTypePassword⟩])
   else (s, 401, [])
 
 def hVipOtp (s : State) (c : Option Cookie) (owner : Option User) : Res :=
@@ -261,8 +279,11 @@ def hTotp (v : Variant) (s : State) (c : Option Cookie) (code : Option (User × 
       | some (o, k) =>
         if (s.prof ck.sub).hasTotp = true ∧ o = ck.sub ∧ inWindow s.now k then
           if v.totpMatched = true then
-            if (s.prof ck.sub).lastTotp < k then (setLastTotp s ck.sub k, 200, [bump ck authTypeTOTP])
+            if (s.prof ck.sub).lastTotp < k then
+              if s.saveFails = true then (s, 500, [])    -- the new counter could not be saved: no upgrade
+              else (setLastTotp s ck.sub k, 200, [bump ck authTypeTOTP])
             else (s, 401, [])
+          else if s.saveFails = true then (s, 500, [])
           else (setLastTotp s ck.sub s.now, 200, [bump ck authTypeTOTP])
         else (s, 401, [])
 
@@ -277,7 +298,9 @@ def hBootstrap (s : State) (c : Option Cookie) (owner : Option User) : Res :=
     | none => (s, 412, [])
     | some e =>
       if (s.prof ck.sub).hasU2F = true ∨ (s.prof ck.sub).hasTotp = true ∨ e ≤ s.now then (s, 412, [])
-      else if owner = some ck.sub then (clearBoot s ck.sub, 200, [bump ck authTypeBootstrapOTP])
+      else if owner = some ck.sub then
+        if s.saveFails = true then (s, 500, [])    -- the cleared OTP could not be saved: no upgrade
+        else (clearBoot s ck.sub, 200, [bump ck authTypeBootstrapOTP])
       else (s, 401, [])
 
 def newChal (s : State) (u : User) (wa : Bool) : State :=
@@ -403,27 +426,44 @@ def sweepChal (s : State) (u : User) : Option Chal :=
   | some ch => if chalExpired s ch then none else some ch
   | none => none
 
-def handle (v : Variant) (s : State) : Op → Res
+/-- the handlers proper; every request is authenticated with `caller cs` -/
+def handle0 (v : Variant) (s : State) : Op → Res
   | .login u pw => hLogin s u pw
-  | .vipOtp c o => hVipOtp s c o
-  | .pushStart c V => hPushStart s c V
+  | .vipOtp c o => hVipOtp s (caller c) o
+  | .pushStart c V => hPushStart s (caller c) V
   | .approve k => hApprove s k
-  | .poll c V => hPoll v s c V
-  | .totp c code => hTotp v s c code
-  | .bootstrap c o => hBootstrap s c o
-  | .u2fBegin c => hU2fBegin s c
-  | .u2fFinish c a => hU2fFinish v s c a
-  | .waBegin c => hWaBegin s c
-  | .waFinish c a => hWaFinish v s c a
-  | .showToken c l => hShowToken s c l
-  | .sendDoc c t => hSendDoc s c t
+  | .poll c V => hPoll v s (caller c) V
+  | .totp c code => hTotp v s (caller c) code
+  | .bootstrap c o => hBootstrap s (caller c) o
+  | .u2fBegin c => hU2fBegin s (caller c)
+  | .u2fFinish c a => hU2fFinish v s (caller c) a
+  | .waBegin c => hWaBegin s (caller c)
+  | .waFinish c a => hWaFinish v s (caller c) a
+  | .showToken c l => hShowToken s (caller c) l
+  | .sendDoc c t => hSendDoc s (caller c) t
   | .logout _ => (s, 302, [])
-  | .oktaOtp c o => hOktaOtp s c o
-  | .oktaPushStart c => hOktaPushStart s c
+  | .oktaOtp c o => hOktaOtp s (caller c) o
+  | .oktaPushStart c => hOktaPushStart s (caller c)
   | .oktaApprove u => hOktaApprove s u
-  | .oktaPoll c => hOktaPoll s c
+  | .oktaPoll c => hOktaPoll s (caller c)
   | .tick => ({ s with now := s.now + 1 }, 1, [])
   | .sweep => ({ s with push := sweepPush s, chal := sweepChal s }, 1, [])
+  | .fault sv ld => ({ s with saveFails := sv, loadFails := ld }, 1, [])
+
+/-- handlers that load the user's profile right after `checkAuth` (before any other decision) -/
+def loadsProfile : Op → Option Cookies
+  | .totp cs _ | .bootstrap cs _ | .u2fBegin cs | .u2fFinish cs _ | .waBegin cs | .waFinish cs _ => some cs
+  | _ => none
+
+/-- the profile cannot be loaded: an authenticated request to such a handler is answered 500, nothing
+changes, nothing is handed out -/
+def loadFault (s : State) (op : Op) : Bool :=
+  match loadsProfile op with
+  | some cs => s.loadFails && (auth s (caller cs)).isSome
+  | none => false
+
+def handle (v : Variant) (s : State) (op : Op) : Res :=
+  if loadFault s op = true then (s, 500, []) else handle0 v s op
 
 /-- one op: the handler's state change, plus every cookie handed out is remembered as issued and every
 verification event is appended to the ghost log -/
@@ -444,7 +484,7 @@ deriving DecidableEq, Repr
 def bootOf (t0 : Nat) (c : UserCfg) : Option Nat := if c.bootLife = 0 then none else some (t0 + c.bootLife)
 
 def init (t0 : Nat) (okta : Bool) (cfg : User → UserCfg) : State :=
-  { now := t0, okta := okta, cookies := [], push := fun _ => none, svcTx := fun _ => none, nextTx := 0,
+  { now := t0, okta := okta, saveFails := false, loadFails := false, cookies := [], push := fun _ => none, svcTx := fun _ => none, nextTx := 0,
     chal := fun _ => none, nextChal := 0,
     prof := fun u => ⟨(cfg u).totp, 0, bootOf t0 (cfg u), (cfg u).u2f, (cfg u).wa⟩,
     bootIssued := fun u => bootOf t0 (cfg u), toks := [],
